@@ -100,9 +100,10 @@ def check_dispatch(ctx, rule='TBL'):
     for node in walk_local(fi.node):
         if isinstance(node, ast.Assign) and norm(node.targets[0]) == 'candidates':
             cands = ctx.fold.eval(node.value, ctx.fold.module_env(fi.module.name), fi.module.name)
-    ctx.check(cands is not None and not is_unknown(cands) and frozenset(cands) == cl['meaningful'], rule,
-              'deduce_layout considers the four meaningful layouts by default',
-              detail_bad=f"default candidates {cands}", key=f"{rule}|deduce_layout|candidates")
+    known = cands is not None and not is_unknown(cands)
+    ctx.tri(known and frozenset(cands) == cl['meaningful'], known and frozenset(cands) != cl['meaningful'], rule,
+            'deduce_layout considers the four meaningful layouts by default',
+            detail_bad=f"default candidates {cands}", key=f"{rule}|deduce_layout|candidates")
     menv = ctx.fold.module_env(fi.module.name)
     rets = set()
     for node in walk_local(fi.node):
@@ -120,14 +121,21 @@ def check_dispatch(ctx, rule='TBL'):
             tail_after = True
             ok = 'layout_guess = DESC_STR' in body and 'layout_guess = S_DESC_TR' in body \
                 and 'TR_DESC_S' not in body and 'TRS_DESC' not in body.replace('try_trs_desc', '')
-    ctx.check(ok, rule, 'deduce_layout: section-first layouts only when the section word comes first',
-              detail_bad="branch structure of deduce_layout changed", key=f"{rule}|deduce_layout|secfirst")
+    # positive evidence of a defect: a Twp/Rge-first layout chosen inside the
+    # section-first branch (or vice versa)
+    bad = False
+    for node in walk_local(fi.node):
+        if isinstance(node, ast.If) and isinstance(node.test, ast.Compare) and '.start()' in norm(node.test) \
+                and 'twprge_mo.start()' in norm(node.test) and isinstance(node.test.ops[0], (ast.Lt, ast.LtE)):
+            body = ' '.join(norm(s) for s in ast.walk(node) if isinstance(s, (ast.Return, ast.Assign)))
+            if 'return TR_DESC_S' in body or 'return TRS_DESC' in body or '= TR_DESC_S' in body or '= TRS_DESC' in body:
+                bad = True
+    ctx.tri(ok, bad, rule, 'deduce_layout: section-first layouts only when the section word comes first',
+            detail_bad="a Twp/Rge-first layout is chosen although the section word precedes the Twp/Rge",
+            key=f"{rule}|deduce_layout|secfirst")
     t = ' '.join(norm(s) for s in walk_local(fi.node) if isinstance(s, ast.stmt))
-    ctx.check('if not sec_mo or not twprge_mo: return COPY_ALL' in t.replace('\n', ' ')
-              or ('not sec_mo or not twprge_mo' in t and 'return COPY_ALL' in t), rule,
-              'deduce_layout: no section or no Twp/Rge -> copy_all',
-              detail_bad="copy_all fallback of deduce_layout changed", key=f"{rule}|deduce_layout|fallback")
-    ctx.check('no_num_sec_regex.search(text)' in t and 'twprge_regex.search(text)' in t, rule,
-              'deduce_layout looks for the first section word and the first Twp/Rge',
-              detail_bad="deduce_layout probes changed", key=f"{rule}|deduce_layout|probes")
+    ctx.shape(('not sec_mo or not twprge_mo' in t and 'return COPY_ALL' in t), rule,
+              'deduce_layout: no section or no Twp/Rge -> copy_all')
+    ctx.shape('no_num_sec_regex.search(text)' in t and 'twprge_regex.search(text)' in t, rule,
+              'deduce_layout looks for the first section word and the first Twp/Rge')
     return n
